@@ -38,6 +38,7 @@ type BatchResult struct {
 	Overcommit     int64          `json:"overcommit_scenarios"` // loop's ongoing count exceeded N at a dispatch
 	PerturbHits    int64          `json:"perturb_hits"`
 	MustNotStart   int64          `json:"must_not_start_jobs"`
+	DeadCtxJobs    int64          `json:"dead_ctx_jobs"`
 	Failures       int64          `json:"failed_jobs"`
 	Goexits        int64          `json:"goexit_jobs"`
 	Blocked        int64          `json:"transitively_blocked_jobs"`
@@ -154,6 +155,7 @@ func RunBatch(seed uint64, family string, from, count int, quiet bool, progressF
 		br.ShadowEvents += int64(st.ShadowEvents)
 		br.ExactStates += int64(st.ExactStates)
 		br.MustNotStart += int64(st.MustNotStart)
+		br.DeadCtxJobs += int64(st.DeadCtxReached)
 		br.Failures += int64(st.Failures)
 		br.Goexits += int64(st.Goexits)
 		br.Blocked += int64(st.TransitiveBlocked)
